@@ -319,6 +319,13 @@ namespace awkward {
           format = raw->format();
           itemsize = raw->itemsize();
           dtype = util::format_to_dtype(format, itemsize);
+          if ((dtype == util::dtype::datetime64  ||  dtype == util::dtype::timedelta64)  &&
+              json.HasMember("format")  &&  json["format"].IsString()) {
+            std::string given = json["format"].GetString();
+            if (given.compare(0, format.length(), format) == 0) {
+              format = given;
+            }
+          }
         }
         else if (json.HasMember("format")  &&  json["format"].IsString()  &&
                  json.HasMember("itemsize")  &&  json["itemsize"].IsInt()) {
